@@ -38,9 +38,9 @@ type C08Scenario struct {
 	Client ClientParams `json:"client"`
 	WS     bool         `json:"ws"` // WebSocket (CDN) first packet instead of a ClientHello
 	// FirstAtMS: virtual time (since server start) of the first presentation
-	FirstAtMS int64        `json:"first_at_ms"`
+	FirstAtMS int64 `json:"first_at_ms"`
 	// FirstN: number of tasks making the very first presentation at once
-	FirstN int `json:"first_n,omitempty"`
+	FirstN    int          `json:"first_n,omitempty"`
 	Presents  []C08Present `json:"presents"`
 	SrvSkewMS int64        `json:"srv_skew_ms"`
 	Seed      uint64       `json:"seed"`
@@ -49,6 +49,11 @@ type C08Scenario struct {
 // alterOtherTransport as C08Present.Alter: present the same sealed block in
 // the other transport's envelope (TLS ClientHello <-> WebSocket upgrade)
 const alterOtherTransport = 1 << 30
+
+// alterHiddenBit+k as C08Present.Alter: flip bit k of the 96 decoded bytes a
+// WebSocket first packet carries in its "hidden" header (a flipped bit of the
+// base64 text is a different alteration)
+const alterHiddenBit = 1 << 29
 
 const tolMS = 180000
 const cleanMS = 12 * 3600 * 1000
@@ -121,18 +126,21 @@ func genC08History(g *Gen) any {
 // (every bit of a firefox hello in quick; all three browsers in thorough)
 func c08AlteredCount(tier string) int {
 	if tier == "thorough" {
-		return 3 * 2200 * 8
+		return 3*2200*8 + 96*8
 	}
-	return 700 * 8
+	return 700*8 + 96*8
 }
 
 func genC08Altered(g *Gen) any {
 	sc := &C08Scenario{Seed: 0xA17E, FirstAtMS: 1000}
 	browser := "firefox"
-	bit := g.Idx
-	if g.Tier == "thorough" {
-		browser = []string{"firefox", "safari", "chrome"}[g.Idx/(2200*8)]
-		bit = g.Idx % (2200 * 8)
+	bit := g.Idx - 96*8
+	if bit < 0 {
+		// the WebSocket block first: a budget cut must not drop it
+		sc.WS, bit = true, alterHiddenBit+g.Idx
+	} else if g.Tier == "thorough" {
+		browser = []string{"firefox", "safari", "chrome"}[bit/(2200*8)]
+		bit = bit % (2200 * 8)
 	}
 	sc.Client = ClientParams{Method: "shadowsocks", Encryption: "aes-gcm", Browser: browser, Transport: "direct", NumConn: 1, SessionID: 77}
 	sc.Presents = []C08Present{{AtMS: int64(g.Pick(0, 1000, 60000)), Alter: bit, N: 1}}
@@ -217,6 +225,16 @@ func runC08(c *Ctx, scAny any) {
 					p = []byte("GET / HTTP/1.1\r\nHost: 10.0.0.2:443\r\nUpgrade: websocket\r\nConnection: Upgrade\r\nSec-WebSocket-Key: dGhlIHNhbXBsZSBub25jZQ==\r\nSec-WebSocket-Version: 13\r\nHidden: " + b64(hidden) + "\r\n\r\n")
 					ptr = server.WebSocket{}
 				}
+			} else if alter >= alterHiddenBit {
+				k := alter - alterHiddenBit
+				i := bytes.Index(p, []byte("Hidden: "))
+				j := bytes.Index(p[i:], []byte("\r\n"))
+				hidden, _ := base64.StdEncoding.DecodeString(string(p[i+8 : i+j]))
+				if k/8 >= len(hidden) {
+					return
+				}
+				hidden[k/8] ^= 1 << (k % 8)
+				copy(p[i+8:i+j], b64(hidden))
 			} else if alter >= 0 {
 				if alter/8 >= len(p) {
 					return
@@ -292,6 +310,10 @@ func runC08(c *Ctx, scAny any) {
 				if r.alter == alterOtherTransport {
 					what = "the same sealed identity block presented in the other transport's first packet"
 					sig = "replayed:other-transport"
+				} else if r.alter >= alterHiddenBit {
+					k := r.alter - alterHiddenBit
+					what = fmt.Sprintf("a copy with bit %d of byte %d of the decoded hidden header flipped (WebSocket)", k%8, k/8)
+					sig = "altered-copy"
 				} else if r.alter >= 0 {
 					what = fmt.Sprintf("a copy with bit %d of byte %d flipped (same sealed identity block)", r.alter%8, r.alter/8)
 					sig = "altered-copy"
